@@ -444,11 +444,15 @@ def equalize_tables(spec, rng, p=0.8):
     if n: s["features"] = sorted(set(spec["features"]) | {"equal_tables"})
     return s, n
 
-def equal_groups(spec):
-    """groups (>= 2) of distinct factors whose tables are equal (same shape, same numbers)"""
+def equal_groups(spec, same_type=False):
+    """groups (>= 2) of distinct factors whose tables are equal (same shape, same numbers); same_type: the labels
+    also have the same node-label type, so that merging them into one label gives a well-formed grammar (two
+    labels of types (B, A) and (A, B) over domains of size 1 have equal 1x1 tables but cannot be one label:
+    thorough-tier false alarm 'framework inconsistency (code 2)' of the shared_by_caller control)"""
     groups = {}
     for el in sorted(spec["weights"]):
-        groups.setdefault((table_shape(spec, el), repr(spec["weights"][el])), []).append(el)
+        ty = tuple(spec["elabels"][int(el)]["type"]) if same_type else ()
+        groups.setdefault((table_shape(spec, el), repr(spec["weights"][el]), ty), []).append(el)
     return [els for els in groups.values() if len(els) >= 2]
 
 def equal_tables_spec(rng, kind):
@@ -605,7 +609,7 @@ def build_via(spec, sr, path, rng, ids="explicit"):
         if path == "shared_by_caller":
             # the caller binds two factors with equal tables to ONE tensor: they are one parameter, whose gradient is the
             # derivative of the grammar in which both edge labels are the same label
-            grp = equal_groups(spec)
+            grp = equal_groups(spec, same_type=True)
             keep, drop = grp[0][0], grp[0][1]
             b.factors[drop].weights = b.factors[keep].weights
             if rng.random() < 0.5: g = fggs.factorize_fgg(g)
@@ -905,7 +909,7 @@ def run(tier, seed):
             if sum(numel(table_shape(spec, el)) for el in spec["weights"]) > (10 if spec["recursive"] else 16): continue
             spec, n_eq = equalize_tables(spec, prng)
             if n_eq == 0: continue
-        if path == "shared_by_caller" and not equal_groups(spec): continue
+        if path == "shared_by_caller" and not equal_groups(spec, same_type=True): continue
         if path == "conjoin" and sum(1 for e in spec["elabels"] if not e["term"]) > 2: continue
         sr = SR(["real", "log"][k % 2], "float64", scale)
         nonlin = any(f in spec["features"] for f in ("forced_mutual_recursion", "forced_nonlinear_matrix_recursion", "forced_dead_rule_first",
